@@ -1,6 +1,7 @@
 //verif:pkg .
 //verif:use servers_mcp
-//verif:bound stateful: pre-state = 0..2 live sessions built by real initialize exchanges (each handshake completed or not, each with or without an open GET stream) and 0..1 deleted session; then 1 step (thorough: also with POST answers as SSE) over verb {POST, GET, DELETE, PUT} x session header {none, live A, live B, deleted, arbitrary never-issued string <= 34 chars} x body {initialize, ping, initialized notification, other notification, response object, non-JSON, object without id and method}; stateless and session-disabled configurations with GET/POST-SSE on or off; after every step the reported live set equals the model's
+//verif:use streams_mcp
+//verif:bound stateful: pre-state = 0..2 live sessions built by real initialize exchanges (each handshake completed or not, each with or without an open GET stream) and 0..1 deleted session; then 1 step (thorough: also with POST answers as SSE) over verb {POST, GET, DELETE, PUT} x session header {none, live A, live B, deleted, arbitrary never-issued string <= 34 chars} x body {initialize, ping, initialized notification, other notification, response object, non-JSON, object without id and method}; a session whose listening stream was replaced by 0..2 further GETs (each earlier handler having returned or not) and is then deleted: every stream of it ends and no stream entry is left; stateless and session-disabled configurations with GET/POST-SSE on or off; after every step the reported live set equals the model's
 //verif:bound id generator: 16 symbolic CSPRNG bytes through the real hex encoder
 //verif:assume the one-minute sweeper / one-hour expiry is not exercised (tickers never fire); more than two live sessions and longer histories are covered only by the inductive reading of the one-step check
 package mcp
@@ -250,6 +251,41 @@ func H_C04_stateful() {
 
 // H_C04_stateless: no session id is ever issued or required, listening streams get 405, and the answer
 // to a request does not depend on an arbitrary earlier exchange.
+// H_C04_delete_ends_replacement_stream: DELETE ends the session together with its open stream also when that
+// stream replaced earlier ones.
+func H_C04_delete_ends_replacement_stream() {
+	vRandConcrete(true)
+	srv := NewServer("srv", "1.0", WithPostSSEEnabled(false))
+	a := c11Session(srv)
+	vAssume(a != "")
+	n := 1 + vChoice("replacements", 3)
+	var sts []*c11Stream
+	for i := 0; i < n; i++ {
+		st := c11Open(srv, a, nil)
+		vAssume(c11Wait(st.flushed))
+		sts = append(sts, st)
+		if vChoice("waitForOlder", 2) == 1 {
+			vQuiesce()
+		}
+	}
+	vQuiesce()
+	for i := 0; i+1 < n; i++ {
+		vAssert("replaced-stream-ended", c11Wait(sts[i].done))
+	}
+	rec := newVerifRecorder()
+	srv.httpHandler.ServeHTTP(rec, verifRequest("DELETE", "/mcp", nil, "Mcp-Session-Id", a))
+	vAssert("delete-accepted", rec.code() == 200)
+	vAssert("delete-ends-the-open-stream", c11Wait(sts[n-1].done))
+	vQuiesce()
+	srv.httpHandler.getSSEConnectionsLock.RLock()
+	left := len(srv.httpHandler.getSSEConnections)
+	srv.httpHandler.getSSEConnectionsLock.RUnlock()
+	vAssert("no-stream-entry-left", left == 0)
+	live := srv.httpHandler.getActiveSessions()
+	vAssert("session-gone", len(live) == 0)
+	vReach("end")
+}
+
 func H_C04_stateless() {
 	vRandConcrete(true)
 	mk := func() *Server {
